@@ -62,15 +62,19 @@ def case(g, tier, ci):
     ops += [{"op": "bp.copy", "id": "b", "to": "bc"}, {"op": "bp.add", "a": "b", "b": "b2", "to": "bs"}]
     ops += [{"op": "el.new", "id": "e"}, {"op": "el.addBP", "id": "e", "ch": 1, "bp": "b"}, {"op": "el.addBP", "id": "e", "ch": 2, "bp": "b2"}]
     if r.random() < 0.5:
-        ops.append({"op": "el.addFlags", "id": "e", "ch": 1, "flags": [1, 0, 2, 0]})
+        # flags, the explicit "no change everywhere" included
+        ops.append({"op": "el.addFlags", "id": "e", "ch": 1, "flags": [[1, 0, 2, 0], [0, 0, 0, 0], ["", "", "", ""], [4, 3, 0, 1]][N % 4]})
     ops.append({"op": "el.copy", "id": "e", "to": "ec"})
-    ops += [{"op": "sq.new", "id": "s"}, {"op": "sq.setSR", "id": "s", "v": enc(SR)}, {"op": "sq.addElement", "id": "s", "pos": 1, "el": "e"}]
+    ops += [{"op": "sq.new", "id": "s"}, {"op": "sq.setSR", "id": "s", "v": enc(SR)}]
     have_sub = r.random() < 0.5
+    first = [{"op": "sq.addElement", "id": "s", "pos": 1, "el": "e"}]
     if have_sub:
-        ops += [{"op": "sq.new", "id": "u"}, {"op": "sq.setSR", "id": "u", "v": enc(SR)}, {"op": "sq.addElement", "id": "u", "pos": 1, "el": "ec"},
-                {"op": "sq.addSub", "id": "s", "pos": 2, "sub": "u"}]
+        second = [{"op": "sq.new", "id": "u"}, {"op": "sq.setSR", "id": "u", "v": enc(SR)}, {"op": "sq.addElement", "id": "u", "pos": 1, "el": "ec"},
+                  {"op": "sq.addSub", "id": "s", "pos": 2, "sub": "u"}]
     else:
-        ops.append({"op": "sq.addElement", "id": "s", "pos": 2, "el": "ec"})
+        second = [{"op": "sq.addElement", "id": "s", "pos": 2, "el": "ec"}]
+    # positions filled in ascending order, or position 2 before position 1
+    ops += (second + first) if N % 5 < 2 else (first + second)
     for ch in (1, 2):
         ops += [{"op": "sq.setAmp", "id": "s", "ch": ch, "v": 20}, {"op": "sq.setOff", "id": "s", "ch": ch, "v": 0}]
     settings = []
